@@ -324,8 +324,9 @@ impl<H: Helper> Refresher for State<'_, '_, H> {
 
     fn external_print(&mut self, msg: String) -> Result<()> {
         self.out.clear_rows(&self.layout)?;
-        self.layout.end.row = 0;
-        self.layout.cursor.row = 0;
+        // nothing of the old display is left below the message
+        self.layout.end = Position::default();
+        self.layout.cursor = Position::default();
         self.out.write_and_flush(msg.as_str())?;
         if !msg.ends_with('\n') {
             self.out.write_and_flush("\n")?;
